@@ -8,7 +8,7 @@ CONSTANTS
   GapToks = {"emptyrow"}
   Ignorables = {"sheetViews", "sheetPr", "cols"}
   MaxGaps = 1
-  PkgVary = FALSE
+  PkgVary = "none"
 CONSTRAINT GapBound
 INVARIANTS PrefixOK Sorted Refines Dump
 CHECK_DEADLOCK FALSE
